@@ -5,7 +5,7 @@ import ast
 
 from engine.effects import store_field, walk_stmts
 from engine.facts import calls_in, stores_in
-from engine.loader import norm
+from engine.loader import AnalysisError, norm
 
 PARAMETERS = "param.parameterized.Parameters"
 INIT = "param.parameterized.Parameterized.__init__"
@@ -359,6 +359,15 @@ def run(ctx):
     for x in sc:
         bad = None
         orig_ids = {w.id for w in x.orig}
+        if not x.temp:
+            import ast as _ast
+            inplace = [c for c in _ast.walk(x.f.node) if isinstance(c, _ast.Call) and isinstance(c.func, _ast.Attribute) and c.func.attr in ("update", "add", "__ior__")
+                       and norm(c.func.value).endswith("_param__private.syncing")]
+            if not inplace:
+                raise AnalysisError("R08.c: %s restores the syncing set but no write that marks the names was recognised" % x.f.qualname)
+            ctx.fail("R08.c", x.f, inplace[0], "%s marks the names by mutating the syncing set in place: the set saved for the restore is that very object, so the marker is never removed and "
+                                               "later plain assignments are taken for sync writes" % x.f.name, key="%s::syncing-in-place" % x.f.qualname)
+            continue
         if not x.orig:
             bad = x.temp[0]
         for wt in x.temp:
